@@ -392,3 +392,20 @@ Fixpoint is_pow2 (fuel : nat) (n : Z) : bool :=
 Definition bary_close (k1 : Z) (exact obs : Q) : bool :=
   if is_pow2 64 k1 then Qeq_bool exact obs
   else Qle_bool (Qabs (obs - exact)) (Qabs exact * (1 # 1125899906842624)).
+
+(* tolerant containment (the documented tolerance of locate_point): the point xs lies within tol (in lattice
+   coordinates) of the closed simplex s: inside a part the offsets x_i - v_i agree up to tol, and the barycentric
+   weights 1 - T_0, T_0 - T_1, ..., T_{k-1} - T_k (T_k ~ 0) are >= -tol.  Used for inputs on which the floating-point
+   solve through a matrix may legitimately return a neighbouring simplex. *)
+Definition near_simplex (tol : Q) (xs : list Q) (s : simplex) : bool :=
+  let d := length (fst s) in
+  let r := fun i : nat => if (i <? d)%nat then nth i xs 0 - inject_Z (nthz (fst s) i) else 0 in
+  let levels := map (fun p => r (hd 0%nat p)) (snd s) in
+  let fix chain (prev : Q) (l : list Q) : bool :=
+      match l with
+      | [] => true
+      | t :: rest => Qle_bool (- tol) (prev - t) && chain t rest
+      end in
+  (d =? length xs)%nat && valid_simplex s &&
+  forallb (fun p => forallb (fun i => Qle_bool (Qabs (r i - r (hd 0%nat p))) tol) p) (snd s) &&
+  chain 1 levels && Qle_bool (Qabs (last levels 0)) tol.
